@@ -572,7 +572,10 @@ fn binary32_stream(rng: &mut Sm64, out: &mut Out, id: &mut u64, count: usize) {
                         if std::env::var("C12_DEBUG").is_ok() {
                             let pos_id = match &naming { Naming::Bools(m) => m.iter().position(|v| v.coq() == f.pos), Naming::Nums(m) => m.iter().position(|v| v.coq() == f.pos), Naming::Strs(m) => m.iter().position(|v| v.coq() == f.pos) }.unwrap();
                             let g = bin_grad_norm64(&x, &ids, pos_id, cfg.alpha, icpt, &f.w, f.b);
-                            eprintln!("f32 fit id={} n={} d={} alpha={} icpt={} tol={} |g|={:e} ratio={:.3}", *id, n, d, cfg.alpha, icpt, cfg.tol, g, g / cfg.tol);
+                            let ss: f64 = x.iter().flatten().map(|v| (*v as f64) * (*v as f64)).sum();
+                            let lam = cfg.alpha + 0.25 * (ss + if icpt { n as f64 } else { 0.0 });
+                            let bnd = (2.0 * lam * (f32::EPSILON as f64) * 0.7 * n as f64).sqrt();
+                            eprintln!("f32 fit id={} n={} d={} alpha={} icpt={} tol={} |g|={:e} ratio={:.3} bnd={:e} r2={:.3}", *id, n, d, cfg.alpha, icpt, cfg.tol, g, g / cfg.tol, bnd, g / bnd.max(cfg.tol));
                         }
                         let w64: Vec<f64> = f.w.iter().map(|v| *v as f64).collect();
                         let term = format!(
